@@ -64,6 +64,11 @@ BOUNDS = {
 OUTSIDE = 'longer histories; 3 clients; CONNECT / LOG / WAITING / UPDATE interleaved with requests; how the client library ' \
           'pairs replies after it survived a forwarded ERROR (Part B); propagation of failures inside the runtime (Part B)'
 
+# handle_error's comment says errors of cancelled tasks are silently discarded, but a cancelled task stays in
+# mailbox_to_task_dict until its client disconnects, so the ERROR is forwarded to the (connected) owner. The
+# property statement does not decide this; both behaviours are accepted unless this flag is set.
+STRICT_ERROR_AFTER_CANCEL = False
+
 RUNNING, DONE, COLLECTED, CANCELLED, GONE = 'RUNNING', 'DONE', 'COLLECTED', 'CANCELLED', 'GONE'
 NEVER = uuid.UUID(int=0xDEAD)
 CLIENT_KINDS = ('REQUEST', 'STATUS', 'CANCEL')
@@ -218,7 +223,7 @@ class World:
                 text = 'boom-%d' % t.idx
                 if t.state == RUNNING:
                     exp_client[t.owner] = [(RuntimeMessage.ERROR, text)]
-                elif t.state == CANCELLED and self.connected[t.owner]:
+                elif t.state == CANCELLED and self.connected[t.owner] and not STRICT_ERROR_AFTER_CANCEL:
                     alt_client = [list(x) for x in exp_client]
                     alt_client[t.owner] = [(RuntimeMessage.ERROR, text)]
                 s.handle_message(RuntimeMessage.ERROR, MessageDirection.BELOW, s.employees[t.emp].conn, (t.mailbox, text))
